@@ -72,7 +72,7 @@ CallMsgs(ll, prev, cur, e) ==
 IsSwitch(fn) == fn.f \in {"Decset", "Decrst"} /\ \E i \in 1..Len(fn.a) : fn.a[i] \in {1047, 1049}
 SamePrimary(lines, snap, lim) == IF lim < 0 THEN lines = snap ELSE SuffixOf(lines, snap)   \* a lazy trim may have run
 AltMsgs(ll, gOld, gNew, prev, fns, cur) ==
-     (IF cur.t.alt /\ gNew.snap # NoLine /\ ~gNew.snapResized /\ cur.t.other.lines # gNew.snap.c
+     (IF cur.t.alt /\ gNew.snap # NoLine /\ ~gNew.snapResized /\ ~SamePrimary(cur.t.other.lines, gNew.snap.c, cur.t.lim)
       THEN <<Msg("FAIL C16", ll, "parked primary buffer changed during the excursion")>> ELSE <<>>)
   \o (IF prev.t.alt /\ ~cur.t.alt /\ Len(fns) = 1 /\ IsSwitch(fns[1]) /\ gOld.snap # NoLine /\ ~gOld.snapResized
          /\ ~SamePrimary(cur.t.buf.lines, gOld.snap.c, cur.t.lim)
@@ -182,8 +182,12 @@ Silence(pre, fn, x) ==
          [] f = "Decaln" -> EraseMarks(x, 0..(pre.rows - 1))                          \* DecalnKeepsWrapMarks
          [] OTHER -> x
 
-Normal(t, dr) == [t EXCEPT !.buf.lines = dr \o @, !.buf.trim = FALSE, !.other.trim = FALSE, !.dirty = <<>>]
-ViewNormal(t) == [t EXCEPT !.buf.lines = View(t.buf), !.buf.trim = FALSE, !.other.trim = FALSE, !.dirty = <<>>]
+(* a parked primary buffer with a finite limit may be trimmed at any call boundary: only its view is compared
+   by equality, its scrollback by the suffix relation (ParkedOK) *)
+ParkedView(t) == IF t.alt /\ t.lim >= 0 /\ Len(t.other.lines) >= t.other.rows THEN LastN(t.other.lines, t.other.rows) ELSE t.other.lines
+ParkedOK(a, b) == ~(a.alt /\ a.lim >= 0) \/ SuffixOf(a.other.lines, b.other.lines) \/ SuffixOf(b.other.lines, a.other.lines)
+Normal(t, dr) == [t EXCEPT !.buf.lines = dr \o @, !.buf.trim = FALSE, !.other.trim = FALSE, !.other.lines = ParkedView(t), !.dirty = <<>>]
+ViewNormal(t) == [t EXCEPT !.buf.lines = View(t.buf), !.buf.trim = FALSE, !.other.trim = FALSE, !.other.lines = ParkedView(t), !.dirty = <<>>]
 (* blame of a one-function step, by function AND diverging component              *)
 CtxLeaves == {"col", "row", "pw", "pen", "origin", "autowrap", "saved", "asaved"}
 FnBlame(pre, fn, leaves) ==
@@ -200,7 +204,8 @@ Conformance(ll, what, r, fns, e, own) ==
   LET cur == e.st
       a == IF e.consumed THEN Normal(r.vt.t, r.dr) ELSE ViewNormal(r.vt.t)
       b == IF e.consumed THEN Normal(cur.t, e.dr) ELSE ViewNormal(cur.t)
-      okSb == e.consumed \/ SuffixOf(cur.t.buf.lines, r.vt.t.buf.lines) \/ SuffixOf(r.vt.t.buf.lines, cur.t.buf.lines)
+      okSb == /\ (e.consumed \/ SuffixOf(cur.t.buf.lines, r.vt.t.buf.lines) \/ SuffixOf(r.vt.t.buf.lines, cur.t.buf.lines))
+              /\ ParkedOK(r.vt.t, cur.t)
       silent == a # b /\ Len(fns) = 1 /\ what = "fs" /\ Silence(e.pre, fns[1], a) = Silence(e.pre, fns[1], b)
       okT == a = b \/ silent
       okP == r.vt.p = cur.p
